@@ -86,6 +86,30 @@ def run(ctx):
             model_lines.append(core.model_line("decipher_pinblock_iso_4", (key, e4[1], pan4)))
             model_expect.append("OK " + core.show(pin))
         bump("encipher4")
+    # PAN neighbours: the same PIN under PANs that differ in exactly one of the last 13 digits (or only in length), one
+    # after the other in one process - a block must always decode under the PAN it was built with
+    for _ in range(ctx.n(6, 40)):
+        pin = rnd_digits(rng, rng.randrange(4, 13))
+        pan = rnd_digits(rng, rng.randrange(13, 20))
+        neigh = [pan]
+        for pos in range(len(pan) - 13, len(pan)):
+            neigh.append(pan[:pos] + str((int(pan[pos]) + rng.randrange(1, 10)) % 10) + pan[pos + 1:])
+        neigh += [rnd_digits(rng, 3) + pan, pan[1:] if len(pan) > 13 else "7" + pan]
+        for fmt, enc, dec_ in ((0, pinblock.encode_pinblock_iso_0, pinblock.decode_pinblock_iso_0),
+                               (3, pinblock.encode_pinblock_iso_3, pinblock.decode_pinblock_iso_3)):
+            for q in neigh:
+                call(dec_, enc(pin, pan), pan)          # leave whatever state a decode under `pan` leaves
+                evals += 1
+                r = call(dec_, enc(pin, q), q)
+                if r != ("OK", pin):
+                    bad("format %d round trip under a PAN neighbouring an earlier one" % fmt, {"fn": "iso_%d" % fmt, "args": [pin, pan, q]}, pin, repr(r))
+        key = rng.randbytes(16)
+        for q in [rnd_digits(rng, 13)] + ["0" * z + "".join(rng.choice("123456789") for _ in range(n - z)) for n in (13, 16, 19) for z in (1, 2, 3)]:
+            evals += 1
+            r = call(pinblock.decipher_pinblock_iso_4, key, pinblock.encipher_pinblock_iso_4(key, pin, q), q)
+            if r != ("OK", pin):
+                bad("format 4 round trip (PAN with leading zeros)", {"fn": "encipher_4", "args": [key.hex(), pin, q]}, pin, repr(r))
+    bump("pan_neighbours")
     # many format 3 / format 4 encodings of mixed PIN lengths in one process (implementation only)
     for i in range(ctx.n(6000, 40000)):
         pin = rnd_digits(rng, rng.randrange(4, 13))
